@@ -5,6 +5,9 @@ import json, os, sys, subprocess, time, shutil, re, glob
 
 VERIF = os.path.dirname(os.path.dirname(os.path.abspath(__file__)))
 REPO = os.environ.get('VERIF_REPO', '/repo')
+# A run against anything but /repo itself (a seeded change in a scratch worktree) keeps its scratch files,
+# replays and evidence apart, so that it neither disturbs a concurrent check nor overwrites evidence.
+ALT = '' if os.path.realpath(REPO) == '/repo' else '_alt_' + re.sub(r'\W+', '_', os.path.basename(REPO.rstrip('/')))
 GOENV = dict(os.environ, GOFLAGS='-mod=mod', GOPROXY='off', GOSUMDB='off', GOTOOLCHAIN='local')
 WIRE_PKG = 'github.com/google/wire/internal/wire'
 MAIN_PKG = 'github.com/google/wire/cmd/wire'
@@ -31,7 +34,7 @@ def ensure_engine():
 
 
 def workdir(pid):
-    d = os.path.join(VERIF, 'work', pid)
+    d = os.path.join(VERIF, 'work' + ALT, pid) if not ALT else os.path.join(VERIF, 'work', ALT.strip('_'), pid)
     os.makedirs(d, exist_ok=True)
     return d
 
@@ -310,7 +313,7 @@ def run_property(pid, tier):
         print('KNOWN-FINDING: property=%s %s' % (pid, k['what']))
     # a listed open finding that no longer reproduces is reported (not an error)
     for n, v in enumerate(violations):
-        rdir = os.path.join(VERIF, 'replays', pid, 'case_%d' % n)
+        rdir = os.path.join(VERIF, 'replays', pid + ALT, 'case_%d' % n)
         os.makedirs(rdir, exist_ok=True)
         tape = os.path.join(rdir, 'tape.json')
         sp = v.get('spec')
@@ -392,8 +395,9 @@ def write_evidence(pid, tier, seed, cfg, results, violations, known_hits, inconc
     cov = {k: v for k, v in cov.items() if v is not None}
     ev = dict(property_id=pid, tier=tier if tier in ('quick', 'thorough') else 'quick', seed=seed, level=level, coverage=cov,
               assumptions=cfg.get('assumptions', []), wall_s=round(wall, 2), violations=len(violations))
-    os.makedirs(os.path.join(VERIF, 'evidence'), exist_ok=True)
-    json.dump(ev, open(os.path.join(VERIF, 'evidence', pid + '.json'), 'w'), indent=1, sort_keys=True, default=str)
+    evdir = os.path.join(VERIF, 'evidence') if not ALT else os.path.join(VERIF, 'work', ALT.strip('_'), 'evidence')
+    os.makedirs(evdir, exist_ok=True)
+    json.dump(ev, open(os.path.join(evdir, pid + '.json'), 'w'), indent=1, sort_keys=True, default=str)
 
 
 def replay_path(pid, path):
